@@ -318,8 +318,12 @@ def render(tree, style=0) -> str:
         elif r.random() < 0.08:
             res.append(r.choice(['\n', '  ', '\n  ', '# head\n']))
         res.append(line)
-    if r.random() < 0.1:
+    x = r.random()
+    if x < 0.1:
         res.append(r.choice(['\n', '  ', ' \n ', '\t']))
+    elif x < 0.2 and '#' not in lines[-1]:
+        # blank statements after the last real one: the last LINE with a statement still gives the result
+        res.append(r.choice([';', ' ;', ';;', '\n# end', ';\n', '\n\n# the end\n']))
     return ''.join(res)
 
 
